@@ -144,7 +144,8 @@ public:
         for (std::size_t i = 0; i != size; ++i)
         {
             RandomNumberEngine rne;
-            in >> rne;
+            // skip the separator ourselves: the extraction operator of some engines does not
+            in >> std::ws >> rne;
             generators_.push_back(rne);
         }
     }
